@@ -448,6 +448,7 @@ def main(argv=None):
     if missing and not args.only:
         undecided.append(f"{len(missing)} baseline obligations were not generated (stale contract or function out of subset): {missing[:5]}")
 
+    base_opaque = load_baseline().get("__opaque__", {}).get(prop, {})
     for oid, d, in_base in failed:
         key = None
         for kk, r in results.items():
@@ -474,6 +475,15 @@ def main(argv=None):
         if not in_base and not rep.get("confirmed"):
             undecided.append(f"{oid}: refuted but not in the baseline and not confirmed by replay ({rep.get('why')})")
             continue
+        if key is not None and not rep.get("confirmed"):
+            fn_name = results[key]["function"]
+            new_opaque = sorted(set(results[key].get("opaque_calls", [])) - set(base_opaque.get(fn_name, [])))
+            if fn_name in base_opaque and new_opaque:
+                # the function now calls something the engine does not model and did not meet on the reference tree:
+                # the failed proof may be an artefact of that over-approximation -> undecided, not a violation
+                undecided.append(f"{oid}: refuted, but {fn_name} now calls unmodelled callee(s) {new_opaque[:4]} not met on the reference tree "
+                                 f"and the counter-model does not replay ({rep.get('why')})")
+                continue
         violations += 1
         tail = "" if rep.get("confirmed") else " no-failing-input-found"
         lines.append(f"VIOLATION property={prop} replay={replay_path}{tail}")
@@ -525,6 +535,7 @@ def main(argv=None):
     if args.update_baseline:
         allb = load_baseline()
         allb[prop] = {oid: "discharged" for oid, d in sorted(obligations.items()) if d["status"] == "unsat"}
+        allb.setdefault("__opaque__", {})[prop] = {r["function"]: sorted(r.get("opaque_calls", [])) for r in results.values()}
         json.dump(allb, open(os.path.join(HERE, "baseline_obligations.json"), "w"), indent=0, sort_keys=True)
 
     # ------------------------------------------------------------------ evidence
